@@ -474,7 +474,102 @@ func (c09) Eval(c *Chooser, env *Env) *Outcome {
 			}
 		}
 	}
+	// step-level variant 3: swapping two adjacent id-less steps moves their diagnostics with them
+	// and changes nothing else.
+	if c.Weighted("world.stepswap", 1, 2) {
+		g := groups[c.Int("world.swapgroup", len(groups))]
+		if len(g.blocks) == 1 {
+			orig := g.blocks[0]
+			mod := orig
+			if aFrom, aTo, bTo := swapSteps(c, &mod); aFrom > 0 {
+				r1 := lintAlone(o, header, []c09Block{orig}, g.assets, cfg)
+				r2 := lintAlone(o, header, []c09Block{mod}, g.assets, cfg)
+				if r1.failed == nil && r2.failed == nil && r1.fatal == "" && r2.fatal == "" {
+					o.probe("step_swaps_checked", 1)
+					var want []relDiag
+					ok := true
+					for _, d := range r1.perBlock[0] {
+						if strings.Contains(d.Msg, "line:") {
+							ok = false
+						}
+						switch {
+						case d.Line >= aFrom && d.Line < aTo:
+							d.Line += bTo - aTo
+						case d.Line >= aTo && d.Line < bTo:
+							d.Line -= aTo - aFrom
+						}
+						want = append(want, d)
+					}
+					sortRel(want)
+					if ok && !relEqual(want, r2.perBlock[0]) {
+						o.V = &Violation{Oracle: "step-independence", Class: "step-swap-diff:" + diffKinds(want, r2.perBlock[0]),
+							Message: fmt.Sprintf("swapping the adjacent id-less steps at lines +%d..+%d and +%d..+%d of job %q changes diagnostics beyond moving them with their steps.\n  expected:\n%s  got:\n%s", aFrom, aTo-1, aTo, bTo-1, orig.id, relString(want), relString(r2.perBlock[0])),
+							Detail:  map[string]any{"job_before": orig.text, "job_after": mod.text}}
+						return o
+					}
+				}
+			}
+		}
+	}
 	return o
+}
+
+// swapSteps swaps two adjacent steps that have no id; it returns the relative line ranges
+// [aFrom,aTo) and [aTo,bTo) of the two steps before the swap.
+func swapSteps(c *Chooser, blk *c09Block) (int, int, int) {
+	var doc yaml.Node
+	if yaml.Unmarshal([]byte(blk.text), &doc) != nil || len(doc.Content) != 1 || doc.Content[0].Kind != yaml.MappingNode || len(doc.Content[0].Content) < 2 {
+		return 0, 0, 0
+	}
+	job := doc.Content[0].Content[1]
+	if job.Kind != yaml.MappingNode {
+		return 0, 0, 0
+	}
+	for i := 0; i+1 < len(job.Content); i += 2 {
+		if job.Content[i].Value != "steps" || job.Content[i+1].Kind != yaml.SequenceNode || job.Content[i+1].Style&yaml.FlowStyle != 0 {
+			continue
+		}
+		seq := job.Content[i+1]
+		if len(seq.Content) < 2 {
+			return 0, 0, 0
+		}
+		k := c.Int("world.swapat", len(seq.Content)-1)
+		a, b := seq.Content[k], seq.Content[k+1]
+		for _, st := range []*yaml.Node{a, b} {
+			if st.Kind != yaml.MappingNode {
+				return 0, 0, 0
+			}
+			for m := 0; m+1 < len(st.Content); m += 2 {
+				if strings.EqualFold(st.Content[m].Value, "id") {
+					return 0, 0, 0
+				}
+			}
+		}
+		aFrom, aTo := a.Line, b.Line
+		bTo := blk.lines + 1
+		if k+2 < len(seq.Content) {
+			bTo = seq.Content[k+2].Line
+		} else if i+2 < len(job.Content) {
+			bTo = job.Content[i+2].Line
+		}
+		lines := strings.SplitAfter(blk.text, "\n")
+		if len(lines) > 0 && lines[len(lines)-1] == "" {
+			lines = lines[:len(lines)-1]
+		}
+		if aFrom < 2 || aTo <= aFrom || bTo <= aTo || bTo-1 > len(lines) {
+			return 0, 0, 0
+		}
+		if !strings.HasPrefix(strings.TrimLeft(lines[aFrom-1], " "), "- ") || !strings.HasPrefix(strings.TrimLeft(lines[aTo-1], " "), "- ") {
+			return 0, 0, 0
+		}
+		out := append([]string{}, lines[:aFrom-1]...)
+		out = append(out, lines[aTo-1:bTo-1]...)
+		out = append(out, lines[aFrom-1:aTo-1]...)
+		out = append(out, lines[bTo-1:]...)
+		blk.text = strings.Join(out, "")
+		return aFrom, aTo, bTo
+	}
+	return 0, 0, 0
 }
 
 // deleteStep removes one step without an id from the block's steps list (the
